@@ -123,6 +123,18 @@ class PrefixedCtx:
     def body_of(self, f): return self._c.body_of(f)
 
 
+def guarded(ctx, fn, *args):
+    """runs an imported property's rules; an anchor / role problem inside them is deferred (fail closed at the end unless this property's own rules report a violation)"""
+    import facts as F
+    try:
+        return fn(*args)
+    except F.InfraError as e:
+        base = ctx
+        while isinstance(base, PrefixedCtx): base = base._c
+        base.defer_infra(str(e))
+        return None
+
+
 def fresh_ctx(ctx, pid=None):
     """an empty context of the runner's own class (for running another property's rules aside and importing some of their obligations)"""
     while isinstance(ctx, PrefixedCtx): ctx = ctx._c
